@@ -71,18 +71,6 @@ theorem synthesize_registry_correct (l h : List R) (hl : 1 ≤ l.length) (hh : 1
   have h2 := conv_stepRun_correct h hh (ps.map (·.2)) k p.2 (by simp [hp])
   rw [List.getElem?_zipWith, h1, h2]
 
-omit [Div R] [LT R] [DecidableLT R] [BEq R] [Median.POrd R] [Classify.Cmp R] in
-/-- the specification's convolution of a prefix, as a convolution of the whole (zero-extended) signal -/
-theorem firAt_take (c xs : List R) (k : Nat) (hk : k < xs.length) :
-    Spec.firAt c (xs.take (k + 1)) = convL c (fun i => xs.getD i 0) k := by
-  simp only [Spec.firAt, List.length_take, Nat.min_eq_left (by omega : k + 1 ≤ xs.length), Nat.add_sub_cancel]
-  apply convL_congr
-  intro i hi
-  simp only [Spec.signal, List.getD]
-  rw [List.getElem?_take_of_lt (by omega)]
-  have hi' : i < xs.length := by omega
-  simp [List.getElem?_eq_getElem hi']
-
 end SignaloModel.Registry
 
 namespace SignaloModel.Registry
